@@ -22,6 +22,7 @@ int main(void) {
         bytes_t a = {0, 0};
         if (nw >= 2 && !unhex(w[1], &a)) { printf("bad-hex %s\n", w[1]); continue; }
         const char *op = w[0];
+        errno = ENOMEM;   /* poison: no result may depend on the errno left by earlier, unrelated calls */
         if (nw == 2 && (!strcmp(op, "urlenc") || !strcmp(op, "b64enc") || !strcmp(op, "hexenc"))) {
             char *e = op[0] == 'u' ? qurl_encode(a.p, a.n) : op[0] == 'b' ? qbase64_encode(a.p, a.n)
                                                                          : qhex_encode(a.p, a.n);
